@@ -200,7 +200,10 @@ def run_impl(case):
         comparator = MeshFieldsComparator(src, ref, field_inclusion_filter=incl, field_exclusion_filter=excl)
     else:
         comparator = FieldDataComparator(src, ref, incl, excl)
-    suite = comparator(None if real else selector, callback)
+    try:
+        suite = comparator(None if real else selector, callback)
+    except Exception as e:   # the comparator itself must never raise on well-formed field data
+        return {"raised": f"{type(e).__name__}: {e}"[:200], "src": sn, "ref": rn}
     entries = [(c.name, c.status.name) for c in suite]
     buckets_ok = (all(c.status.name == "passed" for c in suite.passed)
                   and all(c.status.name in ("failed", "error") for c in suite.failed)
@@ -459,10 +462,18 @@ def tags_of(case, obs):
 
 def evaluate(ctx, cases):
     obs_l, lines = [], []
+    ok_cases = []
     for c in cases:
         o = run_impl(c)
+        if "raised" in o:
+            ctx.case(("raised", repr(c)), nontrivial=True, tags=["impl-raised"])
+            ctx.violation(c, "raised-out: " + o["raised"], "a FieldComparisonSuite", cls=None,
+                          what="FieldDataComparator.__call__ raised instead of reporting")
+            continue
+        ok_cases.append(c)
         obs_l.append(o)
         lines.append(enc(c, o)[0])
+    cases = ok_cases
     replies = ctx.lean(lines) if ctx.driver_ok else [None] * len(cases)
     for c, o, rep, line in zip(cases, obs_l, replies, lines):
         nontrivial = o["dom"] and len(o["entries"]) > 0 and (set(o["src"]) & set(o["ref"])) != set()
@@ -494,6 +505,8 @@ def fails(case) -> bool:
         o = run_impl(case)
     except Exception:
         return False
+    if "raised" in o:
+        return True
     return any(k == "violation" for k, *_ in check_case(case, o, None))
 
 
@@ -619,6 +632,8 @@ def run(ctx):
 def replay_witness(ctx, entry):
     c = entry["witness"]
     o = run_impl(c)
+    if "raised" in o:
+        return True, {"impl": o["raised"]}
     probs = [p for p in check_case(c, o, None) if p[0] == "violation"]
     return bool(probs), {"impl": {k: o[k] for k in ("verdict", "entries", "callbacks")}, "problems": [p[3] for p in probs]}
 
@@ -629,6 +644,10 @@ def replay(ctx, payload):
         print("replay: finite-table case", c)
         return 1
     o = run_impl(c)
+    if "raised" in o:
+        print(f"replay: FieldDataComparator raised {o['raised']}")
+        print(f"VIOLATION property=C11 replay={payload.get('_path', '<replay>')}")
+        return 1
     orc = oracle(c, o)
     probs = check_case(c, o, None)
     rep = None
